@@ -98,3 +98,11 @@ func probe2(c *Ctx) {
 		walk(r)
 	}
 }
+
+func init() { Registry["PROBE3"] = probe3 }
+
+func probe3(c *Ctx) {
+	for _, s := range c18Sites(c) {
+		fmt.Printf("%s\t%s\t%s\t%s\n", s.Kind, s.Status, s.Key, s.Pos)
+	}
+}
